@@ -293,6 +293,48 @@ def module_level(run):
                         run.add(f"C10/no-assertion-failure[{tag}]/path{pi}/{o.name}@{o.loc}", o.hyps, o.goal, "property", inst, replay=rp)
 
 
+def requantize_models(run):
+    """requantize(float_model, state_dict): the whole-model entry point, on small module trees built by the real quantize()."""
+    from props.C08 import container, engine as engine8, mk_linear, mk_ln
+    for act in (None, "qint8"):
+        for weights in ("qint8", "qint4"):
+            inst = {"level": "model", "entry": "requantize", "weights": weights, "activations": act}
+            run.count_instance(**{"rq_weights": weights, "rq_act": act})
+            E = engine8(run)
+            F = z3.Int("in_a")
+
+            def prog(E2, weights=weights, act=act):
+                qt = E2.load_module(OC.QTYPE).env.lookup
+                src = container(E2, fc=mk_linear(E2, "a"), norm=mk_ln(E2, "c"))
+                E2.call(E2.get("optimum/quanto/quantize.py::quantize"), [src], {"weights": qt(weights), "activations": qt(act) if act else None})
+                E2.call(E2.get("optimum/quanto/quantize.py::freeze"), [src], {})
+                sd = E2.call(E2.getattr(src, "state_dict"), [], {})
+                tgt = container(E2, fc=mk_linear(E2, "a"), norm=mk_ln(E2, "c"))
+                E2.call(E2.get("optimum/quanto/quantize.py::requantize"), [tgt, dict(sd)], {})
+                return src, sd, tgt
+
+            tag = f"w={weights}/a={act}"
+            try:
+                res = E.explore(Builtin("c10r", prog), lambda E2: ([], {}), name="C10.requantize")
+            except Unsupported as u:
+                run.undecide(f"C10/requantize[{tag}]", u, inst)
+                continue
+            run.absorb(E)
+            if not run.expect_paths(res, f"C10/requantize[{tag}]", inst):
+                continue
+            rp = lambda m, s, i=dict(inst): replay_requantize(m, s, i)
+            for pi, r in enumerate(res):
+                fam = "C10/requantize-with-quantized-layernorm" if act else "C10"
+                if r.outcome != "return":
+                    run.add(f"{fam}/requantize-does-not-raise[{tag}]/path{pi}", r.hyps, z3.BoolVal(False), "property", inst, {"outcome": repr(r.value)[:300]}, replay=rp)
+                    continue
+                src, sd, tgt = r.value
+                a, b = src.fields["_modules"]["fc"], tgt.fields["_modules"]["fc"]
+                ok = isinstance(b, Obj) and b.cls is a.cls and b.fields.get("weight_qtype") is a.fields.get("weight_qtype") and \
+                    b.fields.get("activation_qtype") is a.fields.get("activation_qtype")
+                run.add(f"C10/requantize-restores-the-quantized-modules[{tag}]/path{pi}", r.hyps, z3.BoolVal(bool(ok)), "property", inst, replay=rp)
+
+
 def safetensors_split(run):
     """safe_save splits into plain tensors and string metadata; safe_load merges them back: inverse on dicts of tensors and strings."""
     E = OC.engine(run)
@@ -372,7 +414,7 @@ def build(run):
                 f"{PACKED}::PackedTensor.load_from_state_dict", f"{PACKED}::PackedTensor.__tensor_flatten__", f"{PACKED}::PackedTensor.__tensor_unflatten__",
                 f"{QMOD}::QModuleMixin._save_to_state_dict", f"{QMOD}::QModuleMixin._load_from_state_dict", f"{SER}::safe_save", f"{SER}::safe_load"):
         run.under_contract(E0, key)
-    for part in (string_lemma, tensor_level, module_level, safetensors_split):
+    for part in (string_lemma, tensor_level, module_level, requantize_models, safetensors_split):
         try:
             part(run)
         except Unsupported as u:
@@ -456,6 +498,24 @@ def replay_module(model, seed, inst):
     if not torch.equal(y, y2):
         return {"what": "outputs of the reloaded model differ", "max_abs_diff": (y - y2).abs().max().item(),
                 "group_sizes": [getattr(m, "weight_group_size", None) for m in tgt if hasattr(m, "weight_group_size")]}
+    return None
+
+
+def replay_requantize(model, seed, inst):
+    import torch
+    from optimum.quanto import Calibration, freeze, qtypes, quantize, requantize
+
+    torch.manual_seed(seed)
+    mk = lambda: torch.nn.Sequential(torch.nn.Linear(16, 8), torch.nn.LayerNorm(8))
+    src = mk()
+    quantize(src, weights=qtypes[inst["weights"]], activations=qtypes[inst["activations"]] if inst["activations"] else None)
+    freeze(src)
+    sd = src.state_dict()
+    tgt = mk()
+    try:
+        requantize(tgt, sd)
+    except Exception as e:
+        return {"what": f"requantize raises {type(e).__name__}: {str(e)[:200]}"}
     return None
 
 
